@@ -352,9 +352,9 @@ func bigNanos(t time.Time) *big.Int {
 // time arithmetic folds to the exact instant, duration or truth value
 func c09Time(o *out, r *rng, n int) {
 	now := time.Unix(1700000000, 123456789).UTC()
-	times := []string{"2000-01-01T00:00:00Z", "2000-01-01 00:00:00", "2000-01-01", "1970-01-01T00:00:00.000000001Z", "2262-04-11T23:47:16.854775807Z", "1677-09-21T00:12:43.145224192Z", "2020-02-29 12:34:56.789", "9999-12-31T23:59:59Z"}
+	times := []string{now.Format(time.RFC3339Nano), "2000-01-01T00:00:00Z", "2000-01-01 00:00:00", "2000-01-01", "1970-01-01T00:00:00.000000001Z", "2262-04-11T23:47:16.854775807Z", "1677-09-21T00:12:43.145224192Z", "2020-02-29 12:34:56.789", "9999-12-31T23:59:59Z"}
 	durs := []time.Duration{0, 1, -1, time.Second, -time.Hour, 90 * time.Minute, math.MaxInt64, math.MinInt64, 7 * 24 * time.Hour}
-	valuer := &influxql.NowValuer{Now: now}
+	valuer := &influxql.NowValuer{Now: now.In(time.FixedZone("X", 3*3600))}
 	instant := func(s string) *big.Int {
 		t, err := (&influxql.StringLiteral{Val: s}).ToTimeLiteral(time.UTC)
 		must(err)
@@ -421,6 +421,25 @@ func c09Time(o *out, r *rng, n int) {
 			check(fmt.Sprintf("now() + %s", ds), "t:"+np.String())
 			check(fmt.Sprintf("now() - %s", ds), "t:"+nm.String())
 		}
+		// the same instant reached another way (integer nanoseconds plus a duration: a time in the local zone)
+		if ti.IsInt64() {
+			for _, d := range []time.Duration{0, time.Second, -time.Hour} {
+				base := new(big.Int).Sub(ti, big.NewInt(int64(d)))
+				ds, _ := fmtDur(d)
+				if !base.IsInt64() || base.Sign() < 0 {
+					continue
+				}
+				lhs := fmt.Sprintf("(%s + %s)", base.String(), ds)
+				if d < 0 {
+					lhs = fmt.Sprintf("(%s - %s)", base.String(), influxql.FormatDuration(-d))
+				}
+				for _, op := range []string{"<=", ">=", "=", "!=", "<", ">"} {
+					want := map[string]bool{"<=": true, ">=": true, "=": true, "!=": false, "<": false, ">": false}[op]
+					check(fmt.Sprintf("%s %s '%s'", lhs, op, ts), fmt.Sprintf("b:%v", want))
+					check(fmt.Sprintf("'%s' %s %s", ts, op, lhs), fmt.Sprintf("b:%v", want))
+				}
+			}
+		}
 		for _, ts2 := range times {
 			t2 := instant(ts2)
 			diff := new(big.Int).Sub(ti, t2)
@@ -435,6 +454,7 @@ func c09Time(o *out, r *rng, n int) {
 			check(fmt.Sprintf("'%s' = '%s'", ts, ts2), fmt.Sprintf("b:%v", c == 0))
 			check(fmt.Sprintf("'%s' != '%s'", ts, ts2), fmt.Sprintf("b:%v", c != 0))
 			check(fmt.Sprintf("now() > '%s'", ts2), fmt.Sprintf("b:%v", bigNanos(now).Cmp(t2) > 0))
+			check(fmt.Sprintf("now() >= '%s'", ts2), fmt.Sprintf("b:%v", bigNanos(now).Cmp(t2) >= 0))
 		}
 	}
 }
